@@ -196,6 +196,7 @@ class Normaliser:
         self._new_by_name: dict | None = None
         self._baseline_names: set[str] | None = None
         self._new_names: set[str] | None = None
+        self._new_classes: set[str] | None = None
         self.inlined: list[str] = []
 
     # ---- inventory ---------------------------------------------------------------
@@ -291,6 +292,22 @@ class Normaliser:
             self._new_names = new
         return self._new_names
 
+    def new_class_names(self) -> set[str]:
+        if self._new_classes is None:
+            import re as _re
+            out: set[str] = set()
+            for rel in self.repo.py_files('dashlive'):
+                known = self.baseline.get(rel, [])
+                try:
+                    src = self.repo.source(rel)
+                except Exception:
+                    continue
+                for cn in _re.findall(r'^class\s+(\w+)', src, _re.M):
+                    if not any(q.startswith(cn + '.') for q in known):
+                        out.add(cn)
+            self._new_classes = out
+        return self._new_classes
+
     def _needs(self, fn: ast.AST) -> bool:
         """cheap test: can any transformation apply?"""
         if self._baseline_names is None:
@@ -305,7 +322,7 @@ class Normaliser:
                 name = f.id if isinstance(f, ast.Name) else (f.attr if isinstance(f, ast.Attribute) else None)
                 if name == 'format' and isinstance(f, ast.Attribute) and isinstance(f.value, ast.Constant):
                     return True
-                if name and self.baseline and name in self.new_names() and (
+                if name and self.baseline and (name in self.new_names() or name in self.new_class_names()) and (
                         isinstance(f, ast.Name) or (isinstance(f.value, ast.Name))):
                     return True
             if isinstance(n, ast.BinOp) and isinstance(n.op, ast.Mod) and isinstance(n.left, ast.Constant) \
@@ -546,7 +563,7 @@ class Normaliser:
             nested = {n.name: n for n in ast.walk(fn)
                       if isinstance(n, (ast.FunctionDef, ast.AsyncFunctionDef)) and n is not fn}
             fn._nested_defs = nested
-        if nm not in nested and nm not in self.new_names():
+        if nm not in nested and nm not in self.new_names() and not getattr(fn, '_local_classes', None):
             return None
         if isinstance(f, ast.Name):
             if f.id in nested:
@@ -573,10 +590,24 @@ class Normaliser:
                         if self.is_new(rel, f'{owner.name}.{m.name}'):
                             return m, f.value, rel, False
                         return None
+            locs = getattr(fn, '_local_classes', None) or {}
+            if recv in locs:
+                for m in locs[recv].body:
+                    if isinstance(m, (ast.FunctionDef, ast.AsyncFunctionDef)) and m.name == f.attr:
+                        return m, f.value, rel, False
             if recv in ('self', 'cls', 'clz'):
                 cands = [c for c in self.new_named(f.attr) if c[1] is not None]
                 if len(cands) == 1:
                     return cands[0][2], f.value, cands[0][0], False
+        return None
+
+    def _new_class(self, name: str, rel, mod):
+        for n in getattr(mod, 'body', []):
+            if isinstance(n, ast.ClassDef) and n.name == name:
+                known = self.baseline.get(rel, [])
+                if self.baseline and not any(q.startswith(name + '.') for q in known) \
+                        and any(isinstance(m, ast.FunctionDef) for m in n.body):
+                    return n
         return None
 
     def _acceptable(self, callee: ast.FunctionDef) -> bool:
@@ -826,6 +857,34 @@ class Normaliser:
             call, kind = st.value, 'expr'
         if call is None:
             return None
+        # x = NewClass(args): the constructor of a class that is new relative to the inventory
+        if kind == 'assign' and isinstance(st, (ast.Assign, ast.AnnAssign)) and isinstance(call.func, ast.Name):
+            tgt = st.targets[0] if isinstance(st, ast.Assign) and len(st.targets) == 1 else getattr(st, 'target', None)
+            ncls = self._new_class(call.func.id, rel, mod)
+            if ncls is not None and isinstance(tgt, ast.Name):
+                init = next((m for m in ncls.body if isinstance(m, ast.FunctionDef) and m.name == '__init__'), None)
+                if init is not None and '__init__' + ncls.name not in stack and self._acceptable(init):
+                    b0 = self._bind(call, init, ast.Name(id=tgt.id, ctx=ast.Load()), caller_names)
+                    if b0 is not None:
+                        prelude0, mapping0, rename0 = b0
+                        body0 = clone(self._body(init))
+                        holder0 = ast.Module(body=body0, type_ignores=[])
+                        _Sub(mapping0, rename0).visit(holder0)
+                        alloc = clone(st)
+                        alloc.value = ast.Call(
+                            func=ast.Attribute(value=ast.Name(id=ncls.name, ctx=ast.Load()), attr='__new__', ctx=ast.Load()),
+                            args=[ast.Name(id=ncls.name, ctx=ast.Load())], keywords=[])
+
+                        def sink0(value, at):
+                            return []
+                        sink0.needs_value = False
+                        out0 = [alloc] + prelude0 + self._to_sink(holder0.body, sink0)
+                        locs = getattr(fn, '_local_classes', None)
+                        if locs is None:
+                            locs = fn._local_classes = {}
+                        locs[tgt.id] = ncls
+                        self.inlined.append(f'{rel}::{ncls.name}.__init__ -> {fn.name}')
+                        return [ast.copy_location(x, st) if not hasattr(x, 'lineno') else x for x in out0]
         r = self._callee_for(call, fn, rel, mod, cls, stack)
         if r is None:
             return None
